@@ -236,7 +236,7 @@ class Task:
             if connection == "keep-alive":
                 if not content_length_header:
                     self.set_close_on_finish()
-                else:
+                elif not self.close_on_finish:
                     self.response_headers.append(("Connection", "Keep-Alive"))
             else:
                 self.set_close_on_finish()
